@@ -254,6 +254,65 @@ func genChain(c *Case) {
 	}
 }
 
+// genFanOut ("fan-out after failure"): one top-level task F that fails behind a gate (directly
+// at a random index, or through a nested child) and 4-10 top-level dependents that wait for F
+// (some also for earlier dependents) with bodies of 3-5 plain probes, hold=1.  A runner that
+// ignores a failed prerequisite only shows when a dependent's RunLoop wins the race against
+// the closed Done() channel of the shared context; many ungated dependents per case raise the
+// chance of seeing it.
+func genFanOut(r *hx.Rand, c *Case, st stats) map[string]bool {
+	b := &builder{r: r, c: c, st: st, caseSt: map[string]bool{}}
+	c.Hold = true
+	f := b.newTask(RoleTop, 0, 0)
+	c.Top = append(c.Top, f.ID)
+	b.flag("with_failing_task")
+	switch r.Intn(4) {
+	case 0: // the failure happens inside a nested child
+		ch := b.child(f, 2)
+		ch.Body = []Cmd{{Kind: 'p'}, {Kind: 'f'}, {Kind: 'p'}}
+		if r.Chance(1, 2) {
+			ch.Body = []Cmd{{Kind: 'p'}, {Kind: 'g'}, {Kind: 'f'}}
+		}
+		f.Body = []Cmd{{Kind: 'p'}, {Kind: 'g'}, {Kind: 's', Arg: ch.ID}, {Kind: 'p'}}
+		st["fanout_fail_nested"]++
+	case 1: // fails at a random index >= 1, always behind a gate so that every dependent is submitted first
+		n := 3 + r.Intn(3)
+		at := 1 + r.Intn(n-1)
+		f.Body = make([]Cmd, n)
+		for i := range f.Body {
+			f.Body[i] = Cmd{Kind: 'p'}
+		}
+		f.Body[r.Intn(at)] = Cmd{Kind: 'g'}
+		f.Body[at] = Cmd{Kind: 'f'}
+		st[fmt.Sprintf("fanout_fail_index_%d", at)]++
+	default:
+		f.Body = []Cmd{{Kind: 'p'}, {Kind: 'g'}, {Kind: 'f'}, {Kind: 'p'}}
+		st["fanout_fail_index_2"]++
+	}
+	nDep := 4 + r.Intn(7)
+	var deps []int
+	for j := 0; j < nDep; j++ {
+		t := b.newTask(RoleTop, 0, 0)
+		c.Top = append(c.Top, t.ID)
+		t.Wait = []int{f.ID}
+		if len(deps) != 0 && r.Chance(1, 3) {
+			other := deps[r.Intn(len(deps))]
+			if r.Chance(1, 2) {
+				t.Wait = []int{other, f.ID}
+			} else {
+				t.Wait = []int{f.ID, other}
+			}
+		}
+		for n := 3 + r.Intn(3); n > 0; n-- {
+			t.Body = append(t.Body, Cmd{Kind: 'p'})
+		}
+		deps = append(deps, t.ID)
+	}
+	st["fanout_dependents"] += nDep
+	b.flag("fanout")
+	return b.caseSt
+}
+
 // ---- c16 -----------------------------------------------------------------------------------
 
 // Shapes of a try body.
@@ -357,6 +416,50 @@ func genC16(r *hx.Rand, c *Case, st stats, combo int) map[string]bool {
 	return b.caseSt
 }
 
+// genTryRegression is the regression family of fix 5b521a4 (pip:try must record a rejected
+// handler submission instead of panicking): a top-level owner `p,g,y<k>,p` whose try body
+// holds gates and at least one handler, and a sibling top-level task `p,g,f` that fails while
+// the try body is still running, so that the handler submission meets a finished root context.
+func genTryRegression(r *hx.Rand, c *Case, st stats, hold bool) map[string]bool {
+	b := &builder{r: r, c: c, st: st, caseSt: map[string]bool{}}
+	c.Hold = hold
+	owner := b.newTask(RoleTop, 0, 0)
+	sib := b.newTask(RoleTop, 0, 0)
+	c.Top = []int{owner.ID, sib.ID}
+	if r.Chance(1, 2) {
+		c.Top = []int{sib.ID, owner.ID}
+	}
+	hs := b.randHandlers()
+	if hs == [3]int{} {
+		hs[r.Intn(3)] = 1
+	}
+	owner.Body = []Cmd{{Kind: 'p'}, {Kind: 'g'}}
+	y, tb := b.newTry(owner, 2, hs)
+	owner.Body = append(owner.Body, Cmd{Kind: 'y', Arg: y.K}, Cmd{Kind: 'p'})
+	// 3-5 commands, gates at index 1 and n-2 at least, optionally failing at the end (fail handler path)
+	n := 3 + r.Intn(3)
+	tb.Body = make([]Cmd, n)
+	for i := range tb.Body {
+		tb.Body[i] = Cmd{Kind: 'g'}
+		if i != 1 && i != n-2 && r.Chance(1, 2) {
+			tb.Body[i] = Cmd{Kind: 'p'}
+		}
+	}
+	if r.Chance(1, 3) {
+		tb.Body[n-1] = Cmd{Kind: 'f'}
+		st["try_regression_body_fails"]++
+	}
+	sib.Body = []Cmd{{Kind: 'p'}, {Kind: 'g'}, {Kind: 'f'}}
+	b.flag("with_failing_sibling")
+	b.flag("try_regression")
+	if hold {
+		st["try_regression_hold1"]++
+	} else {
+		st["try_regression_hold0"]++
+	}
+	return b.caseSt
+}
+
 // ---- driver of the generators --------------------------------------------------------------
 
 func gen(w io.Writer, family string, n int) error {
@@ -367,6 +470,7 @@ func gen(w io.Writer, family string, n int) error {
 	r := hx.NewRand(seed)
 	st := stats{}
 	comboStart := r.Intn(nCombos)
+	enumerated, regressions := 0, 0
 	for i := 0; i < n; i++ {
 		c := &Case{ID: fmt.Sprintf("%s-%d-%d", family, seed, i), Seed: r.U64(), Hold: r.Chance(1, 2)}
 		var flags map[string]bool
@@ -374,14 +478,20 @@ func gen(w io.Writer, family string, n int) error {
 		case family == "c14" && i%50 == 49:
 			genChain(c)
 			flags = map[string]bool{"deep_chain": true}
+		case family == "c14" && i%6 == 5:
+			flags = genFanOut(r, c, st)
 		case family == "c14":
 			flags = genC14(r, c, st)
+		case i%8 == 7:
+			flags = genTryRegression(r, c, st, regressions%2 == 1)
+			regressions++
 		default:
 			// enumerate every combination once (starting anywhere), then sample
-			combo := (comboStart + i) % nCombos
-			if i >= nCombos {
+			combo := (comboStart + enumerated) % nCombos
+			if enumerated >= nCombos {
 				combo = r.Intn(nCombos)
 			}
+			enumerated++
 			flags = genC16(r, c, st, combo)
 		}
 		for k := range flags {
